@@ -1103,6 +1103,9 @@ peg::parser! {
             p:variable_name() { Parameter::Named(p.to_owned()) }
 
         // N.B. The indexing syntax is not a standard sh-ism.
+        // N.B. Memoized: every alternative of the parameter-expression rules starts by parsing
+        // a parameter, so a nested subscript (`${a[${a[...]}]}`) was re-parsed exponentially often.
+        #[cache]
         pub(crate) rule parameter() -> Parameter =
             p:positional_parameter() { Parameter::Positional(p) } /
             p:special_parameter() { Parameter::Special(p) } /
